@@ -69,6 +69,7 @@ type Op struct {
 	NoTopic     bool     `json:"no_topic,omitempty"`     // send empty topic (alias use)
 	Collide     bool     `json:"collide,omitempty"`      // use a packet id the broker currently has outstanding towards this client
 	CollideNext bool     `json:"collide_next,omitempty"` // own QoS 2 publish under the id the broker will assign to its next outbound message on this connection; PUBREL withheld
+	HeldDup     bool   `json:"held_dup,omitempty"` // DUP retransmission of the oldest withheld own QoS 2 publish (id known at run time)
 	MsgExp      uint32   `json:"msg_exp,omitempty"`
 	Size        int      `json:"size,omitempty"` // payload filler
 
